@@ -5,6 +5,8 @@ package main
 
 import (
 	"encoding/json"
+	"github.com/nyaruka/goflow/excellent"
+	"regexp"
 	"sort"
 	"strings"
 
@@ -204,6 +206,34 @@ func (in *inspector) lines(src string, sa flows.SessionAssets, s flows.Session, 
 				}
 			}
 		}
+		// fields and globals that the templates of the actions and routers on the newly visited nodes refer to by name,
+		// in the base language and in the translation of the contact's language (a translation replaces the base text,
+		// also when the base text is empty)
+		for _, st := range r.Path()[min(stFrom, len(r.Path())):] {
+			node := r.Flow().GetNode(st.NodeUUID())
+			if node == nil {
+				continue
+			}
+			var holders []any
+			for _, a := range node.Actions() {
+				holders = append(holders, a)
+			}
+			if node.Router() != nil {
+				holders = append(holders, node.Router())
+			}
+			langs := []string{}
+			if s.Contact() != nil && s.Contact().Language() != "" {
+				langs = append(langs, string(s.Contact().Language()))
+			}
+			for _, h := range holders {
+				for _, a := range templateRefs(jsonx.MustMarshal(h), raw, langs) {
+					if !seenA[a] {
+						seenA[a] = true
+						line.Observed.Assets = append(line.Observed.Assets, a)
+					}
+				}
+			}
+		}
 		// the exit through which the resumed step left its wait
 		if r.UUID() == resumed && stFrom >= 1 && stFrom <= len(r.Path()) {
 			if x := r.Path()[stFrom-1].ExitUUID(); x != "" {
@@ -221,3 +251,68 @@ func (in *inspector) lines(src string, sa flows.SessionAssets, s flows.Session, 
 // flows/routers/testdata) is injected into the holder flow of its assets and executed (msg trigger and, for routers
 // with waits, a resume with every candidate text), so that each action/router type that can save a result or name
 // an asset is run with services succeeding and failing.
+
+var refInExpr = regexp.MustCompile(`\b(fields|globals)\.([a-z][a-z0-9_]*)`)
+var evaluatedTranslations = map[string]bool{"text": true, "attachments": true, "quick_replies": true, "subject": true, "body": true, "template_variables": true, "arguments": true}
+
+// templateRefs: field:<key> / global:<key> for every @fields.x / @globals.y in the strings of the given action or router
+// JSON and in its translations (for the given languages) in the raw definition
+func templateRefs(holder []byte, rawDef string, langs []string) []string {
+	var strs []string
+	var uuidsIn []string
+	var walk func(k string, v any)
+	walk = func(k string, v any) {
+		switch t := v.(type) {
+		case map[string]any:
+			if u, ok := t["uuid"].(string); ok {
+				uuidsIn = append(uuidsIn, u)
+			}
+			for kk, e := range t {
+				walk(kk, e)
+			}
+		case []any:
+			for _, e := range t {
+				walk(k, e)
+			}
+		case string:
+			if strings.Contains(t, "@") {
+				strs = append(strs, t)
+			}
+		}
+	}
+	var hv any
+	json.Unmarshal(holder, &hv)
+	walk("", hv)
+	if len(langs) > 0 {
+		var def struct {
+			Localization map[string]map[string]map[string][]string `json:"localization"`
+		}
+		json.Unmarshal([]byte(rawDef), &def)
+		for _, l := range langs {
+			for _, u := range uuidsIn {
+				for prop, vals := range def.Localization[l][u] {
+					if evaluatedTranslations[prop] {
+						strs = append(strs, vals...)
+					}
+				}
+			}
+		}
+	}
+	seen := map[string]bool{}
+	var out []string
+	for _, tpl := range strs {
+		excellent.VisitTemplate(tpl, flows.RunContextTopLevels, true, func(tt excellent.XTokenType, tok string) error {
+			if tt == excellent.IDENTIFIER || tt == excellent.EXPRESSION {
+				for _, m := range refInExpr.FindAllStringSubmatch(strings.ToLower(tok), -1) {
+					a := map[string]string{"fields": "field", "globals": "global"}[m[1]] + ":" + m[2]
+					if !seen[a] {
+						seen[a] = true
+						out = append(out, a)
+					}
+				}
+			}
+			return nil
+		})
+	}
+	return out
+}
